@@ -7,6 +7,7 @@ behaviour and every rule must stay silent on the result.
   rev-arms  : the value list of every multi-way switch reversed (same value -> target pairs, other order)
   negate-if : every two-way switch on a bool tests the negated value with the targets exchanged
   split-edges: an empty block is put on every switch edge and behind every call
+  extra-copies: every call argument and switch subject that is a plain local goes through a fresh temporary first
   rename-locals: every named local / parameter gets another name
   anon-consts: named scalar constants become literals (`ClusterId::ROOT_DIR` as its value, `CMD17` as 0x11)
 usage: tools/metamorphic.py [kind ...]   (default: all, one after the other)"""
@@ -42,6 +43,29 @@ def transform(raw, kind):
                 elif t["k"] == "Call" and t.get("target") is not None:
                     t["target"] = pad(t["target"])
                     n += 1
+        return n
+    if kind == "extra-copies":
+        for body in raw["bodies"]:
+            for blk in body["blocks"]:
+                if blk.get("cleanup"):
+                    continue
+                t = blk["term"]
+                ops = []
+                if t["k"] == "Call":
+                    ops = [(t["args"], i) for i in range(len(t["args"]))]
+                elif t["k"] == "SwitchInt":
+                    ops = [(t, "discr")]
+                for holder, key in ops:
+                    o = holder[key]
+                    if o.get("k") in ("copy", "move") and not o["p"]["proj"]:
+                        src = body["locals"][o["p"]["l"]]
+                        if src["ty"].startswith("&mut") and o["k"] == "copy":
+                            continue
+                        nl = len(body["locals"])
+                        body["locals"].append({"ty": src["ty"], "tag": src.get("tag"), "name": None})
+                        blk["stmts"].append({"k": "Assign", "p": {"l": nl, "proj": []}, "rv": {"k": "Use", "op": o}, "sp": t["sp"]})
+                        holder[key] = {"k": "move", "p": {"l": nl, "proj": []}}
+                        n += 1
         return n
     if kind == "rename-locals":
         for body in raw["bodies"]:
@@ -98,7 +122,7 @@ def transform(raw, kind):
 
 
 def main():
-    kinds = sys.argv[1:] or ["swap-eq", "mirror-cmp", "swap-comm", "rev-arms", "negate-if", "split-edges", "rename-locals", "anon-consts"]
+    kinds = sys.argv[1:] or ["swap-eq", "mirror-cmp", "swap-comm", "rev-arms", "negate-if", "split-edges", "extra-copies", "rename-locals", "anon-consts"]
     props = [json.loads(l)["id"] for l in open(os.path.join(V, "properties.jsonl"))]
     bad = 0
     for kind in kinds:
